@@ -681,7 +681,11 @@ func (e *Engine) checkC11(st *Step) {
 					continue
 				}
 				if q.Running+uint64(len(q.Allocating))+1 > q.MaxApps {
-					e.violate("C11", "admitted-beyond-limit", "", fmt.Sprintf("application %s (%s) got its first allocation %s while queue %s reports running %d + allocating %d with maximum %d", b.App, app.State, b.Key, q.Path, q.Running, len(q.Allocating), q.MaxApps))
+					ctx := ""
+					if app.State == "Completing" {
+						ctx = "/restarted-from-completing"
+					}
+					e.violate("C11", "admitted-beyond-limit", ctx, fmt.Sprintf("application %s (%s) got its first allocation %s while queue %s reports running %d + allocating %d with maximum %d", b.App, app.State, b.Key, q.Path, q.Running, len(q.Allocating), q.MaxApps))
 				}
 			}
 		}
